@@ -191,6 +191,18 @@ func (pc *poolConn) handleWrite(total int, p []byte) {
 		pc.feed(enc.exception([]srvExc{{60, "DB::Exception", "DB::Exception: no table", ""}}))
 		pc.inflight--
 	case strings.HasSuffix(qid, "-cut"):
+		// the transport dies while the server is answering; where, depends on how many requests the connection has seen:
+		// before any byte, inside an Exception packet (after its code / in the middle of its fields), inside a Progress packet
+		exc := enc.exception([]srvExc{{60, "DB::Exception", "DB::Exception: no table", "stack"}})
+		switch pc.requests % 4 {
+		case 1:
+			pc.feed(exc[:len(exc)/2])
+		case 2:
+			pc.feed(exc[:1])
+		case 3:
+			pr := enc.progress(1, 2, 3, 4, 5, 6)
+			pc.feed(pr[:len(pr)-1])
+		}
 		pc.setEOF()
 		pc.inflight--
 	case strings.HasSuffix(qid, "-slow"):
@@ -694,6 +706,11 @@ func runC11(c *Ctx) {
 		{{Op: "acquire", W: 0}, {Op: "do", W: 0, Kind: "cut"}, {Op: "release", W: 0}, {Op: "release-again", W: 0}, {Op: "acquire", W: 1}, {Op: "do", W: 1, Kind: "ok"}, {Op: "release", W: 1}, {Op: "close"}},
 		// transport error: the connection is destroyed at release and never reissued
 		{{Op: "acquire", W: 0}, {Op: "do", W: 0, Kind: "cut"}, {Op: "release", W: 0}, {Op: "acquire", W: 1}, {Op: "do", W: 1, Kind: "ok"}, {Op: "ping", W: 1}, {Op: "release", W: 1}},
+		// transport error in the middle of the server's answer (1..3 requests earlier on the connection select where: see
+		// handleWrite): destroyed at release all the same
+		{{Op: "acquire", W: 0}, {Op: "ping", W: 0}, {Op: "do", W: 0, Kind: "cut"}, {Op: "release", W: 0}, {Op: "acquire", W: 1}, {Op: "do", W: 1, Kind: "ok"}, {Op: "ping", W: 1}, {Op: "release", W: 1}, {Op: "close"}},
+		{{Op: "acquire", W: 0}, {Op: "ping", W: 0}, {Op: "ping", W: 0}, {Op: "do", W: 0, Kind: "cut"}, {Op: "release", W: 0}, {Op: "acquire", W: 1}, {Op: "do", W: 1, Kind: "ok"}, {Op: "ping", W: 1}, {Op: "release", W: 1}, {Op: "close"}},
+		{{Op: "acquire", W: 0}, {Op: "ping", W: 0}, {Op: "ping", W: 0}, {Op: "ping", W: 0}, {Op: "do", W: 0, Kind: "cut"}, {Op: "release", W: 0}, {Op: "acquire", W: 1}, {Op: "do", W: 1, Kind: "ok"}, {Op: "ping", W: 1}, {Op: "release", W: 1}, {Op: "close"}},
 		// exception keeps the connection
 		{{Op: "acquire", W: 0}, {Op: "do", W: 0, Kind: "exc"}, {Op: "release", W: 0}, {Op: "acquire", W: 1}, {Op: "do", W: 1, Kind: "ok"}, {Op: "release", W: 1}, {Op: "close"}},
 	}
